@@ -87,6 +87,7 @@ Definition val_encodable (f : tfield) (v : tval) : Prop :=
   | FHexTok, VBytes b => zlen b <= 255
   | FTag, VBytes b => zlen b <= 255
   | FB32, VBytes b => zlen b <= 255
+  | FEnum k, VInt z => 0 <= z <= enum_max k
   | _, _ => True
   end.
 
@@ -110,7 +111,7 @@ Qed.
 Theorem parse_field_encodable c f st raw st' v :
   parse_field c f st = Ok (raw, st') -> ctor_field f raw = Ok v -> val_encodable f v.
 Proof.
-  destruct f as [maxv| |tokmax ctormax ne| | |sc| |v6| | | | |]; cbn [parse_field]; intros H Hc.
+  destruct f as [maxv| |tokmax ctormax ne| | |sc| |v6| | | | | |k|]; cbn [parse_field]; intros H Hc.
   - unfold get_uint, as_uint in H.
     destruct (get_unescaped st) as [[t s1]| |]; cbn [bind fst snd] in H; try discriminate.
     destruct (as_int t 10) as [z| |]; cbn [bind fst snd] in H; try discriminate.
@@ -146,6 +147,12 @@ Proof.
   - destruct v; exact Logic.I.
   - destruct raw as [z0|b|n0|l0|w0]; cbn [ctor_field] in Hc; try (inversion Hc; subst; exact Logic.I).
     destruct (zlen b >? 255) eqn:E; try discriminate. inversion Hc; subst. cbn [val_encodable]. lia.
+  - destruct (get_string st 0) as [[t s1]| |]; cbn [bind fst snd] in H; try discriminate.
+    destruct (enum_parse k t) as [z| |]; cbn [bind fst snd] in H; try discriminate. inversion H; subst.
+    cbn [ctor_field] in Hc. unfold enum_ctor in Hc.
+    destruct ((z <? 0) || (z >? enum_max k)) eqn:E; cbn [bind] in Hc; try discriminate. inversion Hc; subst.
+    cbn [val_encodable]. lia.
+  - destruct v; exact Logic.I.
 Qed.
 
 (* names accepted from text satisfy the DNS limits (hence to_wire with an origin cannot fail on length) *)
